@@ -34,6 +34,9 @@ func (c *PContacts) VNo() int {
 
 // GetContact returns the requested parsed contact body or nil.
 func (c *PContacts) GetContact(n int) *PFromBody {
+	if n < 0 {
+		return nil
+	}
 	if c.VNo() > n {
 		return &c.Vals[n]
 	}
